@@ -166,6 +166,31 @@ fn gen_custom_family(src: &mut Src) -> (Option<Desc>, MetricFamily, NFamily) {
     }
     let nf = NFamily { name: name.clone(), help: help.clone(), ty, samples };
     let mut mf = crate::neutral::to_lib(&nf);
+    // a hand-built sample may carry payloads of several kinds (the family type says which one counts): add a second
+    // payload of another kind after the real one
+    if src.chance(60) {
+        for m in mf.mut_metric().iter_mut() {
+            match src.below(3) {
+                0 if ty != NType::Gauge => {
+                    let mut g = prometheus::proto::Gauge::default();
+                    g.set_value(-7.5);
+                    m.set_gauge(g);
+                }
+                1 if ty != NType::Counter => {
+                    let mut c = prometheus::proto::Counter::default();
+                    c.set_value(99.0);
+                    m.set_counter(c);
+                }
+                2 if ty != NType::Summary => {
+                    let mut su = prometheus::proto::Summary::default();
+                    su.set_sample_count(3);
+                    su.set_sample_sum(1.5);
+                    m.set_summary(su);
+                }
+                _ => {}
+            }
+        }
+    }
     // exercise defaults: a family whose type / help was never set
     if src.chance(30) {
         let mut bare = MetricFamily::default();
